@@ -271,6 +271,8 @@ pub struct FrontendCtx<'a, R: FileManager> {
 
     pub type_application_stack: Vec<(String, Runtype)>,
     jsdoc_cache_by_file: BTreeMap<BffFileName, JsdocFileCache>,
+    /// files whose exports are being collected into a namespace value (`typeof NS`)
+    namespace_values_in_progress: BTreeSet<BffFileName>,
 }
 
 #[derive(Debug)]
@@ -1088,6 +1090,7 @@ impl<'a, R: FileManager> FrontendCtx<'a, R> {
             type_application_stack: vec![],
             recursive_generic_uuids: BTreeSet::new(),
             jsdoc_cache_by_file: BTreeMap::new(),
+            namespace_values_in_progress: BTreeSet::new(),
         }
     }
 
@@ -2545,16 +2548,28 @@ impl<'a, R: FileManager> FrontendCtx<'a, R> {
         bff_file_name: &BffFileName,
         anchor: &Anchor,
     ) -> Res<Runtype> {
+        // a namespace whose value contains itself (`import * as b from './b'; export const x = b` both ways)
+        if !self
+            .namespace_values_in_progress
+            .insert(bff_file_name.clone())
+        {
+            return self.error(
+                anchor,
+                DiagnosticInfoMessage::RecursiveNamespaceValue(bff_file_name.to_string()),
+            );
+        }
         let mut vs = vec![];
         let mut seen_names = BTreeSet::new();
         let mut visited_files = BTreeSet::new();
-        self.push_file_exports_as_values(
+        let res = self.push_file_exports_as_values(
             bff_file_name,
             anchor,
             &mut vs,
             &mut seen_names,
             &mut visited_files,
-        )?;
+        );
+        self.namespace_values_in_progress.remove(bff_file_name);
+        res?;
         Ok(Runtype::object(vs))
     }
 
